@@ -134,6 +134,13 @@ ConfFrame(B, T, e) ==
                ~(x[2] = "request" /\ x[4] \in DOMAIN B.req /\ x[4] \notin DOMAIN T.req)}}
     [] OTHER -> {}
 
+\* every step must contain one instruction event per popped instruction and one update event per vehicle: a refactoring
+\* that loses a hook must not make the checks silently vacuous (reported as machinery failure, not as a verdict)
+ConfHooks(Hh, B, e) ==
+  IF e.ev # "tick" THEN {}
+  ELSE (IF Hh.nupd # Cardinality(DOMAIN B.veh) THEN {<<"Hooks", "update_events", "missing_or_extra", "step">>} ELSE {})
+       \cup (IF Hh.ninstr # Len(Hh.final) THEN {<<"Hooks", "instruction_events", "missing_or_extra", "step">>} ELSE {})
+
 Conformance(B, T, e) ==
   CASE e.ev = "instr" -> ConfInstr(B, T, e)
     [] e.ev = "update" -> ConfUpdate(B, T, e)
@@ -178,6 +185,8 @@ HInit(T, e) ==
    reqfile  |-> IF "reqfile" \in DOMAIN e THEN PairsToFn(e.reqfile) ELSE <<>>,      \* request id -> departure time
    pricefile|-> IF "pricefile" \in DOMAIN e
                 THEN [i \in DOMAIN e.pricefile |-> [e.pricefile[i] EXCEPT !.sts = SeqToSet(@)]] ELSE <<>>,
+   nupd     |-> 0,             \* vehicle updates / instruction attempts recorded in this step (hook presence)
+   ninstr   |-> 0,
    steps    |-> 0]
 
 Reports(e, type) == {e.rep[i] : i \in {i \in DOMAIN e.rep : e.rep[i].type = type}}
@@ -217,6 +226,8 @@ HNext(Hh, B, T, e) ==
                 /\ (pk # {} \/ B.veh[e.v].gained # T.veh[e.v].gained \/ B.veh[e.v].bal # T.veh[e.v].bal)
              THEN @ + 1 ELSE @,
      !.gens = IF e.ev = "begin" THEN <<>> ELSE IF e.ev = "gen" THEN Append(@, [name |-> e.name, instrs |-> e.instrs]) ELSE @,
+     !.nupd = IF e.ev = "begin" THEN 0 ELSE IF e.ev = "update" THEN @ + 1 ELSE @,
+     !.ninstr = IF e.ev = "begin" THEN 0 ELSE IF e.ev = "instr" THEN @ + 1 ELSE @,
      !.steps = IF e.ev = "end" THEN @ + 1 ELSE @]
 
 -----------------------------------------------------------------------------
@@ -420,7 +431,7 @@ TraceNext ==
      IN /\ S' = T
         /\ H' = IF e.ev = "init" THEN HInit(T, e) ELSE HNext(H, B, T, e)
         /\ IF e.ev = "init" THEN Record({}, {}, {}, l)
-           ELSE Record(MonStep(H, B, T, e), Conformance(B, T, e), Coverage(B, T, e), l)
+           ELSE Record(MonStep(H, B, T, e), Conformance(B, T, e) \cup ConfHooks(H, B, e), Coverage(B, T, e), l)
   /\ l' = l + 1
 
 TraceSpec == TraceInit /\ [][TraceNext]_tvars
